@@ -23,6 +23,8 @@ Variables (M Out : Type).
 Variable sd : M -> sdict.
 Variable mrg : M -> list pseudo_t -> M.
 Variable cmp : M -> Out.
+Variable fx : fixes.
+Variable g : list nat.
 
 (* [n]: world size of the process group (1 when torch.distributed is not initialised), [i]: rank in
    the group, [Wg]: size of the world *)
@@ -30,7 +32,7 @@ Definition get_synced_metric (n i Wg : nat) (m : M) : P M :=
   if Nat.eqb n 1 then Ret (Ok m)
   else
     let md := [(TMP, sd m)] in
-    bindr (sync_states None i Wg md (traversal md)) (fun o =>
+    bindr (sync_states fx g None i Wg md (traversal md)) (fun o =>
       match o with
       | None => Ret (Exc "AssertionError")                     (* none_throws *)
       | Some gath => Ret (Ok (mrg m (others i n (map (pseudo TMP) gath) [])))
@@ -40,7 +42,7 @@ Definition get_synced_metric_collection (n i Wg : nat) (mc : list (string * M)) 
   if Nat.eqb n 1 then Ret (Ok mc)
   else
     let md := map (fun km => (fst km, sd (snd km))) mc in
-    bindr (sync_states None i Wg md (traversal md)) (fun o =>
+    bindr (sync_states fx g None i Wg md (traversal md)) (fun o =>
       match o with
       | None => Ret (Exc "AssertionError")
       | Some gath =>
@@ -62,24 +64,24 @@ Definition val_of_pseudo (p : pseudo_t) : val := VL (map (fun kx => VL [VT (fst 
 Definition val_of_mobj (m : mobj) : val :=
   match merged m with None => VT "self" [] | Some l => VT "merged" [VL (map val_of_pseudo l)] end.
 
-(* scenario: (Wg (g ...) coll (md_0 ...)): md_i is the dict name -> state_dict of rank i's metric(s);
+(* scenario: (Wg (g ...) coll (fix_d12 fix_d9 fix_dst) (md_0 ...)): md_i is the dict name -> state_dict of rank i's metric(s);
    coll = 0: a single metric (the only entry of md_i), coll = 1: get_synced_metric_collection *)
 (* @model sync_toolkit run_sync_toolkit *)
 Definition run_sync_toolkit (v : val) : val :=
   match v with
-  | VL [VZ wg; VL g; VZ coll; VL mds] =>
+  | VL [VZ wg; VL g; VZ coll; fxv; VL mds] =>
       match omap mdict_of_val mds with
       | Some mds =>
           let g := map nat_of g in let n := List.length g in let Wg := Z.to_nat wg in
           if Z.eqb coll 0 then
             val_of_run val_of_mobj
               (run_all_tr (respond g)
-                 (mapi (fun i md => get_synced_metric mobj base mobj_mrg n i Wg
+                 (mapi (fun i md => get_synced_metric mobj base mobj_mrg (fixes_of_val fxv) g n i Wg
                                       (mkM (match md with (_, s) :: _ => s | [] => [] end) None)) 0 mds))
           else
             val_of_run (fun mc => VL (map (fun km => VL [VT (fst km) []; val_of_mobj (snd km)]) mc))
               (run_all_tr (respond g)
-                 (mapi (fun i md => get_synced_metric_collection mobj base mobj_mrg n i Wg
+                 (mapi (fun i md => get_synced_metric_collection mobj base mobj_mrg (fixes_of_val fxv) g n i Wg
                                       (map (fun ks => (fst ks, mkM (snd ks) None)) md)) 0 mds))
       | None => vbad end
   | _ => vbad end.
